@@ -73,8 +73,8 @@ CLAIMED = {
    technique="contract-based deductive verification with an opaque-value layer (uninterpreted hash sort), loop invariant over a recursive specification function",
    design="§10.4 C16 (table), §10.3 (layers), §10.5 (defects)"),
  "C17": dict(
-   text="Deductive proof of acceptance-implies-check contracts: the Vortex verifier returns nil only if every prescribed check was made and passed on the values the relation speaks about (claims vs. uAlpha, codeword test, and for every selected column: range, consistency with uAlpha, SIS hash, Merkle authentication - as an end-of-iteration obligation); the permutation-argument Verify of 7 curves returns nil only if the algebraic relation on the challenges and claimed values holds, both KZG openings verified on the prescribed digests and points, and the generator has exact order n; Pedersen Verify / BatchVerifyMultiVk of all curves: subgroup tests on every commitment and proof (quantified loop invariants), pairing check on exactly the prescribed arguments (single verify), lengths.",
-   note="Opaque-call layer: callees return arbitrary values (assumed not to write through arguments); IsInSubGroup declared pure. Sufficiency of the prescribed checks and completeness are not proved. SHPLONK, fflonk, plookup, FRI and mpcsetup verifiers are not under contract.",
+   text="Deductive proof of acceptance-implies-check contracts: the Vortex verifier returns nil only if every prescribed check was made and passed on the values the relation speaks about (claims vs. uAlpha, codeword test, and for every selected column: range, consistency with uAlpha, SIS hash, Merkle authentication - as an end-of-iteration obligation); the permutation-argument Verify of 7 curves returns nil only if the algebraic relation on the challenges and claimed values holds, both KZG openings verified on the prescribed digests and points, and the generator has exact order n; the vector-lookup (plookup) VerifyLookupVector of 7 curves returns nil only if the folded relation of the scheme holds on the four challenges (in derivation order) and the ten claimed values, both batched openings verified on the prescribed digests at nu and g*nu, and g has exact order n; Pedersen Verify / BatchVerifyMultiVk of all curves: subgroup tests on every commitment and proof (quantified loop invariants), pairing check on exactly the prescribed arguments (single verify), lengths.",
+   note="Opaque-call layer: callees return arbitrary values (assumed not to write through arguments); IsInSubGroup declared pure. Sufficiency of the prescribed checks and completeness are not proved. SHPLONK, fflonk, FRI and mpcsetup verifiers and the table variant of plookup (VerifyLookupTables) are not under contract.",
    technique="contract-based deductive verification: ghost capture of callee arguments/results at call-site cut points, loop invariants with a shape-independent iteration counter, end-of-iteration obligations",
    design="§10.4 C17 (table), §10.3 (layers), §10.5 (defects)"),
  "C19": dict(
